@@ -58,9 +58,9 @@ func init() {
 		return clusterCheckSched(prop, tier, p, []string{"leader_present", "op_acked", "op_applied_on_2plus_nodes"}, untimedAssumptions, nil, sp)
 	}
 	checks["C04"] = func(prop, tier string) int {
-		p := []plan{{"all1", 30}, {"crash2-d3", 50}, {"crash3-d2", 67}, {"lead3-d2", 52}, {"stale5-d2", 72}, {"regained5-d2", 70}, {"part2-d4", 40}, {"restoring3-d3", 60}, {"filecrash3-d2", 30}}
+		p := []plan{{"all1", 30}, {"crash2-d3", 50}, {"crash3-d2", 67}, {"lead3-d2", 52}, {"stale5-d2", 72}, {"regained5-d2", 70}, {"part2-d4", 40}, {"restoring3-d3", 60}, {"filecrash3-d2", 30}, {"revote3-d2", 30}}
 		if tier == "thorough" {
-			p = []plan{{"all1", 10}, {"crash2-d4", 150}, {"crash3-d3", 400}, {"lead3-d3", 400}, {"stale5-d3", 300}, {"crash4-d2", 100}, {"crash5-d2", 150}, {"restoring3-d4", 400}, {"slowsnap3-d3", 400}, {"filecrash3-d3", 300}}
+			p = []plan{{"all1", 10}, {"crash2-d4", 150}, {"crash3-d3", 400}, {"lead3-d3", 400}, {"stale5-d3", 300}, {"crash4-d2", 100}, {"crash5-d2", 150}, {"restoring3-d4", 400}, {"slowsnap3-d3", 400}, {"filecrash3-d3", 300}, {"revote3-d3", 200}}
 		}
 		sp := []schedPlan{{"sched-rep3", 2, 60}}
 		if tier == "thorough" {
